@@ -34,6 +34,10 @@ def main():
                     out.append({"ok": True, "obs": observe_collection(coll)})
             except Exception as e:
                 out.append({"ok": False, "error": f"{type(e).__name__}: {e}", "traceback": traceback.format_exc()[-2500:], "exc_type": type(e).__name__})
+    elif mode == "names":
+        from .props import c08
+
+        out = c08.emit_names(items)
     else:
         raise SystemExit(f"unknown mode {mode}")
     with open(outfile, "wb") as f:
